@@ -53,7 +53,17 @@ Row(o) == <<"C11", o, B2I(EmptyObj(o)),
             IF EmptyObj(o) THEN <<>> ELSE RectObj(o),
             IF EmptyObj(o) THEN <<>> ELSE Center2Obj(o),
             B2I(ValidObj(o)), NumPointsObj(o)>>
-Emit == Len(seq) >= 1 => \A i \in 1..Len(Family(seq)) : PrintT(ToString(Row(Family(seq)[i])))
+\* non-finite ordinates (NaN from a null ordinate or from the constructors, +Inf, -Inf) are in no range: sequences of
+\* length <= 2 with one ordinate replaced by a sentinel (1000001 NaN, 1000002 +Inf, 1000003 -Inf; all three read as
+\* "greater than every limit" here, which is the right verdict for Valid). Only Empty / Valid / NumPoints are stated.
+NonFinite == {1000001, 1000002, 1000003}
+Subst(s, i, c, v) == [s EXCEPT ![i] = IF c = 1 THEN <<v, s[i][2]>> ELSE <<s[i][1], v>>]
+RowV(o) == <<"C11V", o, B2I(EmptyObj(o)), B2I(ValidObj(o)), NumPointsObj(o)>>
+EmitV == Len(seq) \in 1..2 /\ (\A i \in 1..Len(seq) : seq[i][1] \in {7, 181} /\ seq[i][2] \in {3, -91}) =>
+            \A i \in 1..Len(seq) : \A c \in 1..2 : \A v \in NonFinite :
+               LET f == Family(Subst(seq, i, c, v)) IN \A j \in 1..Len(f) : f[j][1] = "Rect" \/ PrintT(ToString(RowV(f[j])))
+Emit == Len(seq) >= 1 => /\ \A i \in 1..Len(Family(seq)) : PrintT(ToString(Row(Family(seq)[i])))
+                         /\ EmitV
 \* refinement check: where does the transcription of the code deviate from L1?
 T4obj == Len(seq) >= 1 => \A i \in 1..Len(Family(seq)) : LET o == Family(seq)[i] IN
            /\ EmptyL2o(o) = EmptyObj(o)
